@@ -27,6 +27,12 @@ fn main() {
     });
 }
 
+/// `Stream::add_auto` returns `StreamId` on the pinned tree and `Option<StreamId>` once the
+/// sequence-carry repair is in (refusal at the top of the ID space): accept both.
+trait AutoId { fn into_opt(self) -> Option<StreamId>; }
+impl AutoId for StreamId { fn into_opt(self) -> Option<StreamId> { Some(self) } }
+impl AutoId for Option<StreamId> { fn into_opt(self) -> Option<StreamId> { self } }
+
 fn now_ms() -> u128 {
     SystemTime::now().duration_since(UNIX_EPOCH).map(|d| d.as_millis()).unwrap_or(0)
 }
@@ -92,9 +98,12 @@ fn step(st: &mut St, ws: &[&str]) -> String {
         ["auto", f] => {
             let Some(f) = parse_fields(f) else { return bad() };
             let t0 = now_ms();
-            let id = st.stream.add_auto(f);
+            let id = st.stream.add_auto(f).into_opt();
             let t1 = now_ms();
-            format!("id {} {} {} {}", id.millis(), id.seq(), t0, t1)
+            match id {
+                Some(id) => format!("id {} {} {} {}", id.millis(), id.seq(), t0, t1),
+                None => format!("refused {} {}", t0, t1),
+            }
         }
         ["range", sm, ss, em, es, c, rev] => {
             let (Some(sm), Some(ss), Some(em), Some(es), Some(c)) = (u(sm), u(ss), u(em), u(es), parse_count(c)) else { return bad() };
